@@ -48,6 +48,14 @@ def evaluate(ctx, sc, d):
         if r1 is None or r1[0] == "error" or (r2 is not None and r2[0] == "error"):
             viol("output-file", f"output for {dest} missing or unparseable")
             return
+    # what each file holds for a read: the record of the right mate, as the baseline run produced it
+    content = {}
+    for dest, (r1, r2) in sc.files.items():
+        for i, rec in enumerate(r1[1]):
+            mate = r2[1][i] if (r2 is not None and i < len(r2[1])) else None
+            content[(dest, fastx.rid(rec[0]))] = (rec, mate)
+        if r2 is not None and len(r2[1]) != len(r1[1]):
+            viol("output-file", f"the two files of destination {dest} hold {len(r1[1])} and {len(r2[1])} records")
     for idx, key in enumerate(sc.order):
         fate = sc.fates[key]
         b1 = sc.base[1][idx]
@@ -65,6 +73,12 @@ def evaluate(ctx, sc, d):
             viol("routed-wrongly", f"read {key}: reference fate {fate} (not written) but found in {dests}; last match R1={b1['adapter']}" + (f" R2={b2['adapter']}" if b2 else ""))
         elif expect is not None and dests != [expect]:
             viol("routed-wrongly", f"read {key}: last match R1={b1['adapter']}" + (f" R2={b2['adapter']}" if b2 else "") + f" -> {expect}, found in {dests or 'no file'}")
+        elif expect is not None:
+            rec, mate = content[(expect, key)]
+            if rec[1] != b1["seq"]:
+                viol("wrong-mate-in-file", f"read {key}: the first file of {expect} holds {rec[1]!r}, R1 is {b1['seq']!r}" + (f" (R2 is {b2['seq']!r})" if b2 else ""))
+            elif b2 is not None and (mate is None or fastx.rid(mate[0]) != key or mate[1] != b2["seq"]):
+                viol("wrong-mate-in-file", f"read {key}: the second file of {expect} holds {mate[:2] if mate else None} at the position of the pair, R2 is {b2['seq']!r}")
     # multiset equality with the plain-output run
     if not any(sc.fopts.get(x) for x in ("discard_untrimmed", "untrimmed_output", "discard_trimmed")):
         argv2 = sc.adargs + sc.mods + sc.fargs + ["-o", "plain1.fq"] + (["-p", "plain2.fq"] if sc.paired else []) + sc.inputs
